@@ -29,6 +29,10 @@ func init() {
 				for j := range k {
 					k[j] = byte(g*17 + j)
 				}
+				k[15], k[14] = byte(i), byte(i>>8) // a fresh key per message for every other UE: first use of a key under load
+				if g%2 == 1 {
+					k[15], k[14] = 0, 0
+				}
 				msg := bytes.Repeat([]byte{byte(g), byte(i)}, 20+g%7)
 				alg := uint8(1 + (g+i)%2)
 				if err := security.NASEncrypt(alg, k, uint32(i), 1, uint8(g%2), msg); err != nil {
@@ -42,6 +46,10 @@ func init() {
 				var k [16]byte
 				for j := range k {
 					k[j] = byte(g*31 + j)
+				}
+				k[15], k[14] = byte(i), byte(i>>8)
+				if g%2 == 1 {
+					k[15], k[14] = 0, 0
 				}
 				msg := bytes.Repeat([]byte{byte(g + 1), byte(i)}, 10+g%5)
 				mac, err := security.NASMacCalculate(uint8(1+(g+i)%2), k, uint32(i), 1, 0, msg)
@@ -150,13 +158,7 @@ func init() {
 			return map[string]interface{}{"harness_error": "unknown family"}
 		}
 		G, N := int(num(in, "goroutines")), int(num(in, "iters"))
-		seq := make([][]string, G)
-		j := mk()
-		for g := 0; g < G; g++ {
-			for i := 0; i < N; i++ {
-				seq[g] = append(seq[g], j(g, i))
-			}
-		}
+		// the concurrent run comes FIRST (nothing is warmed up by an earlier sequential pass), the sequential reference after it
 		par := make([][]string, G)
 		j2 := mk()
 		var wg sync.WaitGroup
@@ -173,6 +175,13 @@ func init() {
 		}
 		close(start)
 		wg.Wait()
+		seq := make([][]string, G)
+		j := mk()
+		for g := 0; g < G; g++ {
+			for i := 0; i < N; i++ {
+				seq[g] = append(seq[g], j(g, i))
+			}
+		}
 		diff := 0
 		first := ""
 		for g := 0; g < G; g++ {
